@@ -407,6 +407,8 @@ def eval_frames(run, frames, label, boxes_by_frame=None, origin=None):
         return st
     answers = common.run_driver(rqs)
     first_diff = None
+    n0 = len(run.violations)
+    avail_diffs = []
     for rq, ia, m, a in zip(rqs, impl, meta, answers):
         if "error" in a:
             raise common.HarnessError("%s: driver error on %s: %s" % (label, canon(rq)[:300], a["error"]))
@@ -422,6 +424,8 @@ def eval_frames(run, frames, label, boxes_by_frame=None, origin=None):
                 st["exact_diffs"] += 1
                 if first_diff is None:
                     first_diff = (rq, ia, ans, fr)
+                if op == "find.avail" and len(avail_diffs) < 40:
+                    avail_diffs.append(fr)
             if op == "find.types":
                 run.tally("find_frames", ("sub" if fr["get_subtypes"] else "super") +
                           ("/self" if fr["include_self"] else "") + ("/bound" if fr["bound"] is not None else "") +
@@ -464,6 +468,8 @@ def eval_frames(run, frames, label, boxes_by_frame=None, origin=None):
     for fr in frames:
         if fr["kind"] == "irrelevant" and "exception" in fr:
             run.tally("irrelevant_exceptions", fr["exception"])
+    if avail_diffs:
+        search_related_candidates(run, avail_diffs, label, origin)
     if first_diff is not None:
         rq, ia, ans, fr = first_diff
         run.log("%s: %d exact requests differ; first: op=%s impl=%s model=%s"
@@ -473,8 +479,51 @@ def eval_frames(run, frames, label, boxes_by_frame=None, origin=None):
         run.violation({"kind": "broken-correspondence", "correspondence": "%s vs Model/Find (%s)" % (rq["op"], label),
                        "etype": export.short(fr["etype"]), "request": rq, "implementation": ia, "model": ans,
                        "origin": origin},
-                      signature=rq["op"] + ":model-differs", no_input=st["rejected"] == 0)
+                      signature=rq["op"] + ":model-differs", no_input=len(run.violations) == n0)
     return st
+
+
+def search_related_candidates(run, frames, label, origin):
+    """failing-input search for a broken `available_types` correspondence: a candidate the implementation keeps
+    available although the declarative decider relates it to the query"""
+    rqs, meta = [], []
+    for fr in frames:
+        fac = fr["factory"]
+        anyt = fac.get_any_type()
+        tgt = effective_etype(fr["etype"], anyt)
+        boxes = boxes_of(fac)
+        for c in fr.get("available", []):
+            if kind(c) == "c":
+                continue
+            for d, (s1, t1) in (("subtype", (c, tgt)), ("supertype", (tgt, c))):
+                tt = export.TypeTable()
+                rq = {"op": "find.subd", "s": tt.add(s1), "t": tt.add(t1), "B": [tt.add(b) for b in boxes]}
+                rq["tt"] = tt.entries
+                rqs.append(rq)
+                meta.append((fr, c, d))
+    if not rqs:
+        return
+    for (fr, c, d), rq, a in zip(meta, rqs, common.run_driver(rqs)):
+        if a.get("r") is True:
+            anyt = fr["factory"].get_any_type()
+            if d == "supertype" and (c == anyt or getattr(irrelevant_target(fr["etype"], anyt), "primitive", False)):
+                continue        # the recorded shapes (top type, box of a primitive) are judged on the answers
+            _viol(run, {"kind": "failing-input", "what": "find_irrelevant_type(%s) keeps %s among its candidates, a %s of the "
+                        "query" % (export.short(fr["etype"]), export.short(c), d), "request": rq,
+                        "origin": dict(origin or {}, **fr.get("where", {})), "stream": label},
+                  SIG_IRR + "related-candidate-available:" + d + "/" + kind(c))
+
+
+PER_SIGNATURE = 3
+
+
+def _viol(run, obj, signature, **kw):
+    """at most PER_SIGNATURE replays per signature and run (the rest is tallied)"""
+    cnt = run.__dict__.setdefault("_sigcount", {})
+    cnt[signature] = cnt.get(signature, 0) + 1
+    run.tally("rejections_by_signature", signature)
+    if cnt[signature] <= PER_SIGNATURE:
+        run.violation(obj, signature=signature, **kw)
 
 
 def report_find_rejection(run, rq, ans, fr, label, origin):
@@ -492,30 +541,30 @@ def report_find_rejection(run, rq, ans, fr, label, origin):
             except Exception:
                 second = False
             shape = subtype_shape(fr, r) + ("" if not second else "/refsub-accepts")
-        run.violation({"kind": "failing-input", "what": "%s(%s) returned %s, which the declarative decider does not "
+        _viol(run, {"kind": "failing-input", "what": "%s(%s) returned %s, which the declarative decider does not "
                        "accept as a %s" % (who, export.short(fr["etype"]), export.short(r),
                                            "subtype" if fr["get_subtypes"] else "supertype"),
                        "etype": export.short(fr["etype"]), "returned": export.short(r), "request": rq,
                        "checker": ans, "origin": dict(origin or {}, **fr.get("where", {})), "stream": label},
-                      signature=SIG_SUB + shape)
+              SIG_SUB + shape)
     if ans["self_demanded"] and ans["self"] != fr["include_self"]:
-        run.violation({"kind": "failing-input", "what": "%s(%s, include_self=%s): query %s the result"
+        _viol(run, {"kind": "failing-input", "what": "%s(%s, include_self=%s): query %s the result"
                        % (who, export.short(fr["etype"]), fr["include_self"],
                           "is in" if ans["self"] else "is missing from"),
                        "request": rq, "checker": ans, "origin": dict(origin or {}, **fr.get("where", {})), "stream": label},
-                      signature=SIG_SUB + ("self-included-unasked" if ans["self"] else "self-missing"))
+              SIG_SUB + ("self-included-unasked" if ans["self"] else "self-missing"))
 
 
 def report_irrelevant_rejection(run, rq, ans, fr, label, origin):
     fac = fr["factory"]
     shape = irrelevant_shape(fr["etype"], fr["result"], ans, fac.get_any_type())
-    run.violation({"kind": "failing-input", "what": "find_irrelevant_type(%s) returned %s, which is a %s of the target"
+    _viol(run, {"kind": "failing-input", "what": "find_irrelevant_type(%s) returned %s, which is a %s of the target"
                    % (export.short(fr["etype"]), export.short(fr["result"]),
                       "subtype" if ans.get("sub") else "supertype" if ans.get("sup") else "?"),
                    "etype": export.short(fr["etype"]), "returned": export.short(fr["result"]),
                    "types": [export.short(t) for t in fr["types"]][:40],
                    "request": rq, "checker": ans, "origin": dict(origin or {}, **fr.get("where", {})), "stream": label},
-                  signature=SIG_IRR + shape)
+          SIG_IRR + shape)
 
 
 
